@@ -107,6 +107,8 @@ def run_op(pf, op, shared=None):
     threads have finished, so that results that alias storage reused by later calls are seen).
     `shared`: for part-file writers {"fmd","frames","paths","compression"}."""
     k = op["op"]
+    if k == "seq":                   # several operations one after the other in ONE thread (the later ones meet what the earlier cached)
+        return [run_op(pf, o, shared) for o in op["ops"]]
     if k == "to_pandas":
         return pf.to_pandas(**_kw(op))
     if k == "slice":
